@@ -347,11 +347,11 @@ fn alt_interleave(t: &[u8]) -> [u8; 40] {
 
 pub fn announced_groups(report: &Report, tier: Tier, seed: u64) {
     let mods = moduli();
-    let gens: Vec<u8> = (2..=255).collect();
+    let gens: Vec<u8> = (0..=255).collect(); // 0 and 1 are generators a server can announce too (0^0 = 1 with an all-zero private key)
     let a_alpha: Vec<[u8; 32]> = if tier == Tier::Thorough {
-        vec![le32_from_u64(1), le32_from_u64(2), le32_from_u64(255), n_plus(-1), [0xFF; 32], refmodel::ctr_array::<32>(seed, "grp-a0"), refmodel::ctr_array::<32>(seed, "grp-a1")]
+        vec![le32_from_u64(1), le32_from_u64(2), le32_from_u64(255), n_plus(-1), [0xFF; 32], refmodel::ctr_array::<32>(seed, "grp-a0"), refmodel::ctr_array::<32>(seed, "grp-a1"), [0u8; 32]]
     } else {
-        vec![le32_from_u64(2), refmodel::ctr_array::<32>(seed, "grp-a0")]
+        vec![le32_from_u64(2), refmodel::ctr_array::<32>(seed, "grp-a0"), [0u8; 32]]
     };
     let b_alpha: Vec<[u8; 32]> = if tier == Tier::Thorough {
         vec![le32_from_u64(1), le32_from_u64(2), le32_from_u64(1234567), n_plus(-1), n_plus(1), [0xFF; 32], refmodel::ctr_array::<32>(seed, "grp-B0")]
@@ -439,7 +439,7 @@ pub fn announced_groups(report: &Report, tier: Tier, seed: u64) {
     if pre_vs_computed.load(Ordering::Relaxed) == 0 {
         mc::util::machinery_error("C03: group sweep cannot distinguish a computed from a pre-computed xor hash");
     }
-    report.space(&format!("announced groups (client): all 254 generators 2..=255 x {} prime moduli x {} private keys x {} server keys x {} credential pairs", mods.len(), a_alpha.len(), b_alpha.len(), cred_alpha.len()));
+    report.space(&format!("announced groups (client): all 256 generators 0..=255 x {} prime moduli x {} private keys x {} server keys x {} credential pairs", mods.len(), a_alpha.len(), b_alpha.len(), cred_alpha.len()));
 }
 
 pub fn constants(report: &Report) {
@@ -515,7 +515,7 @@ pub fn witness_search(seed: u64) {
     while start < (1u64 << 26) {
         let need: Vec<&str> = {
             let f = found_m.lock().unwrap();
-            ["S-low-zero-2", "S-low-zero-3", "S-high-zero-2"].iter().filter(|c| !f.contains_key(**c)).cloned().collect()
+            ["S-low-zero-2", "S-low-zero-3", "S-high-zero-2", "S-low-00-xx-00"].iter().filter(|c| !f.contains_key(**c)).cloned().collect()
         };
         if need.is_empty() {
             break;
@@ -530,7 +530,7 @@ pub fn witness_search(seed: u64) {
                 let s = a_pub.mul(&v.modpow(&u, &n)).rem(&n).modpow(&b3, &n).to_le_padded::<32>();
                 let low = s.iter().take_while(|x| **x == 0).count();
                 let high = s.iter().rev().take_while(|x| **x == 0).count();
-                let cls = if low == 3 { Some("S-low-zero-3") } else if low == 2 { Some("S-low-zero-2") } else if high == 2 { Some("S-high-zero-2") } else { None };
+                let cls = if low == 3 { Some("S-low-zero-3") } else if low == 2 { Some("S-low-zero-2") } else if high == 2 { Some("S-high-zero-2") } else if low == 1 && s[2] == 0 { Some("S-low-00-xx-00") } else { None };
                 if let Some(c) = cls {
                     let a_val = a0.add(&U::from_u64(blk + i));
                     let mut f = found_m.lock().unwrap();
